@@ -314,6 +314,83 @@ def step_anchors(ctx, mod):
     ctx.timings["anchors"] = round(time.time() - t, 1)
 
 
+AMBIENT_KINDS = [
+    ("thread_local", r"\bthread_local!"),
+    ("lazy_static", r"\blazy_static!"),
+    ("once", r"\b(OnceLock|LazyLock|OnceCell|Lazy)\b"),
+    ("static_mut", r"\bstatic\s+mut\b"),
+    ("atomic", r"\bAtomic[A-Z][A-Za-z0-9]*\b"),
+]
+OBJECT_KINDS = [
+    ("RefCell", r"\bRefCell\b"), ("Cell", r"(?<![A-Za-z])Cell<"), ("Mutex", r"\bMutex\b"), ("RwLock", r"\bRwLock\b"),
+    ("UnsafeCell", r"\bUnsafeCell\b"), ("unsafe", r"\bunsafe\b"),
+]
+
+
+def ambient_inventory(repo):
+    """Process-wide / thread-wide mutable state in norad's source (must be none) and interior
+    mutability per object (must be what the models account for). Every Gallina model treats an
+    entry point as a function of its arguments and the file tree; this inventory is the part of
+    that premise that can be read off the source."""
+    ambient, per_object = [], {}
+    src = os.path.join(repo, "src")
+    for root, _, files in os.walk(src):
+        for fn in sorted(files):
+            if not fn.endswith(".rs"):
+                continue
+            path = os.path.join(root, fn)
+            rel = os.path.relpath(path, src)
+            text = open(path, encoding="utf-8", errors="replace").read()
+            mcut = re.search(r"#\[cfg\(test\)\]\s*\n\s*mod\s+\w+\s*\{", text)   # inline test module, not `mod tests;`
+            if mcut:
+                text = text[:mcut.start()]
+            text = re.sub(r"//[^\n]*", "", text)
+            text = re.sub(r"/\*.*?\*/", "", text, flags=re.S)
+            for kind, rx in AMBIENT_KINDS:
+                for m in re.finditer(rx, text):
+                    line = text[text.rfind("\n", 0, m.start()) + 1:text.find("\n", m.end())].strip()
+                    ambient.append("%s:%s:%s" % (rel, kind, line))
+            # statics that are not plain string / slice constants
+            for m in re.finditer(r"^\s*(?:pub(?:\([a-z]+\))?\s+)?static\s+(?!mut\b)(\w+)\s*:\s*([^=]+)=", text, re.M):
+                ty = m.group(2).strip()
+                if not re.match(r"^&(?:'static\s+)?(?:str|\[[^\]]*\])$", ty):
+                    ambient.append("%s:static:%s: %s" % (rel, m.group(1), ty))
+            for kind, rx in OBJECT_KINDS:
+                n = len(re.findall(rx, text))
+                if n:
+                    per_object["%s:%s" % (rel, kind)] = n
+    return sorted(ambient), per_object
+
+
+def step_ambient(ctx):
+    """Shared anchor: no ambient mutable state, per-object interior mutability as catalogued."""
+    t = time.time()
+    cat = json.load(open(os.path.join(VERIF, "lib", "ambient_state.json")))
+    try:
+        ambient, per_object = ambient_inventory(REPO)
+    except Exception as ex:
+        ctx.anchor_failures.append("ambient-state inventory failed: %r" % (ex,))
+        ctx.obligation("anchor:ambient-state", False, repr(ex))
+        return
+    problems = []
+    if ambient != cat["ambient"]:
+        problems.append("process-/thread-wide state in src/: %s (catalogue: %s)" % (ambient, cat["ambient"]))
+    if per_object != cat["per_object"]:
+        diff = {k: (cat["per_object"].get(k, 0), per_object.get(k, 0))
+                for k in set(per_object) | set(cat["per_object"]) if per_object.get(k, 0) != cat["per_object"].get(k, 0)}
+        problems.append("interior mutability / unsafe differs from the catalogue (file:kind -> (catalogued, found)): %s" % diff)
+    ok = not problems
+    if not ok:
+        ctx.anchor_failures.append("the models treat every entry point as a function of its arguments and the file tree; "
+                                   "that premise is no longer read off the source: " + "; ".join(problems))
+    ctx.obligation("anchor:ambient-state", ok, "; ".join(problems)[:300])
+    ctx.trusted.append("no process-/thread-wide mutable state in %s/src (inventory regenerated every run = lib/ambient_state.json); "
+                       "per-object interior mutability: datastore.rs RefCell (lazy store items, Model/Store.v), names.rs RwLock/RefCell "
+                       "(name interning, Model/Interleave.v)" % REPO)
+    ctx.timings["ambient"] = round(time.time() - t, 2)
+
+
+
 def build_harness(ctx, features=(), target="target", profile="release"):
     """Build the harness against REPO's working tree. For REPO == /repo the crate in harness/ is
     used as it is (path dependency "/repo"). For another checkout (VERIF_REPO, mutation
@@ -529,6 +606,7 @@ def main(argv):
         known = parse_known(prop)
         built = step_proofs(ctx, mod)
         step_anchors(ctx, mod)
+        step_ambient(ctx)
         ctx.harness = build_harness(ctx)
         if ctx.harness is None:
             ctx.disagreements.append({"what": "the harness does not build against /repo's working tree"})
